@@ -131,6 +131,8 @@ type Script struct {
 	ID  int    `json:"id"`
 	Pkg string `json:"pkg"`
 	Ops []Op   `json:"ops"`
+	// Shadow: construct a second container of the same package after the first one and keep it alive
+	Shadow bool `json:"shadow"`
 }
 
 type Result struct {
@@ -382,6 +384,8 @@ func (r *runner) par(op Op, d *obj.Describer) map[string]any {
 	return map[string]any{"par": results, "events": events}
 }
 
+var shadowKeep any
+
 func runScript(s Script) Result {
 	res := Result{ID: s.ID, Pkg: s.Pkg}
 	if e, isStub := stubs[s.Pkg]; isStub {
@@ -397,6 +401,7 @@ func runScript(s Script) Result {
 		os.Unsetenv(k)
 	}
 	r := &runner{f: f, ctxs: map[int]context.Context{}}
+	defer func() { shadowKeep = nil }()
 	var initRes map[string]any
 	initRes = guard(func() map[string]any {
 		r.c = f.new()
@@ -405,6 +410,12 @@ func runScript(s Script) Result {
 	if initRes != nil {
 		res.Err = "constructor panics: " + fmt.Sprint(initRes["panic"])
 		return res
+	}
+	if s.Shadow { // a second, younger container of the same package stays alive while the history runs on the first
+		guard(func() map[string]any {
+			shadowKeep = f.new()
+			return nil
+		})
 	}
 	d := obj.NewDescriber(r.isContainer)
 	for _, op := range s.Ops {
